@@ -72,6 +72,10 @@ impl Scenario for Hb {
         }
         // heartbeats off: silence is never fatal, nothing is sent
         v.push(json!({"h": 0, "server": [], "client_at": []}));
+        // ... also when the connection was opened with a connection timeout (it bounds the
+        // handshake, not the life of the connection)
+        v.push(json!({"h": 0, "server": [], "client_at": [5000], "ctimeout_ms": 2000}));
+        v.push(json!({"h": 2, "server": [[1800, "hb"], [3600, "byte"], [5400, "hb"], [7200, "hb"], [9000, "hb"], [10800, "hb"]], "client_at": [], "ctimeout_ms": 1000}));
         v.push(json!({"h": 0, "server": [[1500, "hb"]], "client_at": [2000]}));
         v
     }
@@ -113,11 +117,12 @@ impl Scenario for Hb {
         let horizon_ms = if h == 0 { 1_000_000_000 } else { 6 * h * 1000 };
         cfg.horizon_ns = (horizon_ms + 10) * MS;
         let client_at: Vec<u64> = p["client_at"].as_array().unwrap().iter().map(|x| x.as_u64().unwrap()).collect();
+        let ctimeout = p["ctimeout_ms"].as_u64().map(std::time::Duration::from_millis);
         Built {
             broker: Box::new(broker),
             cfg,
             root: Box::new(move |ctx: Ctx| {
-                let mut conn = match open(&ctx, ConnectionOptions::default().heartbeat(if h == 0 { 0 } else { 600 }), ConnectionTuning::default()) {
+                let mut conn = match open(&ctx, ConnectionOptions::default().heartbeat(if h == 0 { 0 } else { 600 }).connection_timeout(ctimeout), ConnectionTuning::default()) {
                     Ok(c) => c,
                     Err(e) => {
                         ctx.log(format!("open -> Err({})", err_name(&e)));
@@ -209,6 +214,16 @@ impl Scenario for Hb {
                 if close_res.as_deref() != Some("Ok") {
                     v.push(("hb:close".into(), format!("server kept talking but close returned {:?}", close_res)));
                 }
+            }
+        }
+        // --- any inbound traffic counts: everything the server sent while the connection was
+        // alive was read when it arrived (the reference above is built from the client's reads)
+        for ev in p["server"].as_array().unwrap() {
+            // (the scripted server sends nothing ahead of a delayed OpenOk)
+            let t = ev[0].as_u64().unwrap().max(p["open_delay_ms"].as_u64().unwrap_or(0)) * MS;
+            if t + g < alive_until && !o.read_times.iter().any(|(rt, n)| *rt >= t && *rt <= t + g && *n > 0) {
+                v.push(("hb:inbound-not-read".into(), format!("the server sent at {} ms but the client did not read then (reads at {:?} ms)", t / MS, o.read_times.iter().map(|(t, _)| t / MS).collect::<Vec<_>>())));
+                break;
             }
         }
         // --- client sends something at least every h while alive
